@@ -27,7 +27,7 @@ def cases(tier, fx):
     return L
 
 def run(tier, seed):
-    wd = os.path.join(VERIF, 'build', 'C19')
+    wd = os.path.join(BUILD, 'C19')
     shutil.rmtree(wd, ignore_errors=True)
     fx = build_fixture(wd, 'c19', open(os.path.join(VERIF, 'kernels', 'c19.cpp')).read())
     return execute('C19', tier, seed, cases(tier, fx), ASSUME)
